@@ -224,7 +224,7 @@ AnyNode(v, C) ==
       [] v.t = "M" -> \E i \in 1..Len(v.kv) : AnyNode(v.kv[i].v, C)
       [] OTHER -> FALSE
 \* classes no stock mapper has a handler for (nor for any of their bases)
-NoHandler == {"URoot", "UChild", "ULeg", "ULegChild", "UPlain", "Leaf", "AlgebraicLeaf", "QuotientBase"}
+NoHandler == {"URoot", "UChild", "ULeg", "ULegChild", "UPlain", "UInit", "Leaf", "AlgebraicLeaf", "QuotientBase"}
 VarLike   == {"Variable", "UVar", "UTagVar"}
 \* fractions.Fraction is not among the constant types the mappers accept
 RECURSIVE HasFrac(_)
